@@ -78,7 +78,13 @@ fn eval_hex(code: &str, args: &[uplc::PlutusData]) -> J {
 }
 
 /// one history of apply / saveload operations on a fresh copy of the blueprint
-fn run_history(bp0: &Blueprint, h: &J, ctxs: &J) -> J {
+fn run_history(bp0: &Blueprint, h: &J, ctxs: &J, select: &J) -> J {
+    let module = select["module"].as_str().map(|s| s.to_string());
+    let name = select["validator"].as_str().map(|s| s.to_string());
+    let prefix = match (&module, &name) {
+        (Some(m), Some(n)) => format!("{m}.{n}."),
+        _ => String::new(),
+    };
     let mut cur = bp0.clone();
     let mut steps = vec![];
     let mut applied: Vec<uplc::PlutusData> = vec![];
@@ -90,7 +96,7 @@ fn run_history(bp0: &Blueprint, h: &J, ctxs: &J) -> J {
                     Err(e) => return json!({"harness_error": e}),
                 };
                 let mut next = cur.clone();
-                let r = guarded(|| next.apply_parameter(None, None, &data).map_err(|e| format!("{e:?}").chars().take(160).collect::<String>()));
+                let r = guarded(|| next.apply_parameter(module.as_deref(), name.as_deref(), &data).map_err(|e| format!("{e:?}").chars().take(160).collect::<String>()));
                 match r {
                     Ok(Ok(())) => {
                         cur = next;
@@ -121,7 +127,7 @@ fn run_history(bp0: &Blueprint, h: &J, ctxs: &J) -> J {
     }
     // behaviour once every parameter is applied: through the blueprint, and by plain application to the original code
     let mut behaviour = json!({});
-    let all_applied = cur.validators.iter().all(|v| v.parameters.is_empty());
+    let all_applied = cur.validators.iter().filter(|v| v.title.starts_with(&prefix)).all(|v| v.parameters.is_empty());
     if all_applied {
         let orig = validator_summary(bp0);
         let fin = validator_summary(&cur);
@@ -155,7 +161,7 @@ fn run_case(case: &J) -> J {
     if let Some(hs) = case["histories"].as_array() {
         let mut hres = vec![];
         for h in hs {
-            hres.push(run_history(&bp, h, &case["ctxs"]));
+            hres.push(run_history(&bp, h, &case["ctxs"], &case["select"]));
         }
         out["histories"] = J::Array(hres);
     }
